@@ -183,6 +183,23 @@ theorem C19_dry_reads_accounted :
   decide
 
 set_option maxRecDepth 8192 in
+/-- … and the non-call effects that depend on a DryRun test (assignments, inc/dec, break/continue/goto, send, go)
+    are only: the result bookkeeping after the driver call (RowsAffected, Dest, the `rows` result and its error,
+    RETURNING scan mode, back-filling of the inserted key incl. its loops) -/
+theorem C19_dry_effects_scope :
+    ∀ e ∈ dryEffects,
+      e ∈ [("Create", "assign", "mode"), ("Create", "assign", "db.RowsAffected"), ("Create", "assign", "pkField"),
+           ("Create", "assign", "pkFieldName"), ("Create", "assign", "values[pkFieldName]"),
+           ("Create", "assign", "(*values)[pkFieldName]"), ("Create", "assign", "mapValues"),
+           ("Create", "assign", "insertID"), ("Create", "assign", "mapValue[pkFieldName]"),
+           ("Create", "incdec", "i"), ("Create", "branch", "break"),
+           ("Delete", "assign", "db.RowsAffected"), ("RawExec", "assign", "db.RowsAffected"),
+           ("RowQuery", "assign", "db.Statement.Dest"), ("RowQuery", "assign", "db.Error"),
+           ("RowQuery", "assign", "db.RowsAffected"),
+           ("Update", "assign", "db.Statement.Dest"), ("Update", "assign", "db.RowsAffected")] := by
+  decide
+
+set_option maxRecDepth 8192 in
 /-- outside package callbacks a DryRun test guards only: Execute's SQL/Vars reset, Save's fallback
     INSERT (a second statement, decided on the first one's result), Row's log line, and the
     migrator's introspection handle -/
